@@ -416,6 +416,54 @@ def build(run):
     ctor("ufl.inner", lambda a, b: ufl.inner(a, b), lambda s, t: [e for e in t if e.ufl_shape == (2,)], inner=True)
 
 
+    # ---- histories: operands of user subclasses of Coefficient / Constant (as form compilers' Function / Constant classes are), created from a FRESH counter
+    # state in every order relative to plain ones: distinct operands are always separated by the canonical order, so the constructors stay order independent
+    def subclass_histories():
+        import ufl.utils.counted as _cnt
+
+        def fresh():
+            seen, todo = set(), [_cnt.Counted]
+            while todo:
+                c_ = todo.pop()
+                for sub in c_.__subclasses__():
+                    if sub not in seen:
+                        seen.add(sub)
+                        todo.append(sub)
+            for c_ in seen:
+                if "_counter" in c_.__dict__:
+                    try:
+                        delattr(c_, "_counter")
+                    except AttributeError:
+                        pass
+
+        class OtherUserCoefficient(ufl.Coefficient):
+            pass
+        n = 0
+        makers = {"c": lambda V_, m_: ufl.Coefficient(V_), "u": lambda V_, m_: S.UserCoefficient(V_), "o": lambda V_, m_: OtherUserCoefficient(V_),
+                  "k": lambda V_, m_: ufl.Constant(m_), "K": lambda V_, m_: S.UserConstant(m_)}
+        for order in ("uc", "cu", "uo", "ou", "uuc", "ouc", "Kk", "kK", "KKk", "ucKk", "oukK"):
+            fresh()
+            m = S.new_mesh()
+            spaces_ = [ufl.FunctionSpace(m, S.L(ufl.triangle, d_)) for d_ in (1, 2, 3, 1, 2)]
+            objs = [makers[ch](spaces_[k_ % len(spaces_)], m) for k_, ch in enumerate(order)]
+            for a_i, a in enumerate(objs):
+                for b in objs[a_i + 1:]:
+                    if a.ufl_shape != b.ufl_shape:
+                        continue
+                    n += 1
+                    c1, c2 = SRT.cmp_expr(a, b), SRT.cmp_expr(b, a)
+                    if c1 == 0 or c1 != -c2:
+                        return violated(f"creation order '{order}' from a fresh counter state (c/u/o: plain / user / other user coefficient, k/K: plain / user constant): the distinct "
+                                        f"operands {a!r:.60} and {b!r:.60} are not separated by cmp_expr ({c1}, {c2}); counts {a.count()} and {b.count()}",
+                                        replay={"order": order, "counts": [a.count(), b.count()]}, reproduced=True, backend="exec")
+                    for nm_, mk_ in (("Sum", lambda x, y: C.Sum(x, y)), ("Product", lambda x, y: C.Product(x, y)), ("+", lambda x, y: x + y), ("*", lambda x, y: x * y)):
+                        r1, r2 = mk_(a, b), mk_(b, a)
+                        if repr(r1) != repr(r2):
+                            return violated(f"creation order '{order}': {nm_}(a, b) and {nm_}(b, a) differ for a = {a!r:.50}, b = {b!r:.50}: {str(r1)} vs {str(r2)}",
+                                            replay={"order": order, "constructor": nm_}, reproduced=True, backend="exec")
+        return bounded_ok(n, "11 creation orders of plain / user-subclass coefficients and constants from a fresh counter state", sample="distinct operands separated; Sum / Product order independent")
+    run.add("constructor/user-subclass-creation-histories", subclass_histories, kind="bounded")
+
     def canary():
         A, B = types.SimpleNamespace(_count=1), types.SimpleNamespace(_count=2)
         if SRT._cmp_coefficient(A, B) == SRT._cmp_coefficient(B, A):
